@@ -132,7 +132,7 @@ class C07(Prop):
     async def run_case(self, case, acc, ctx):
         i = case["i"]
         r = env.rng("C07", case["seed"], i)
-        nports = 1 + i % 4
+        nports = 1 + env.sig("nports", i) % 4
         use_defaults = i % 5 == 0 and ctx["shard"] == 0 and all(udp.can_bind(p) for p in (20002, 10002, 20003, 10003))
         if use_defaults:
             nports, ports = 4, [20002, 10002, 20003, 10003]   # the library's own defaults (free inside the private namespace)
